@@ -1,1 +1,172 @@
--- property theorems for C08 (stub)
+/- C08 - threads and thread channels deliver every message exactly once.
+   Property theorems over the model JanetModel/Thread/Model.lean; each is an invariant over ALL interleavings
+   (`run cfg acts s` for an arbitrary action list).  The model is parametrised by the shape of the source (`Cfg`, `TCfg`,
+   `RCfg`); JanetModel/Thread/Current.lean instantiates the full theorems at the configuration regenerated from the current
+   source (Gen/Thread.lean) - it only builds when the current source satisfies their hypotheses.
+
+   What is NOT proved here (tested only, see notes/C08.md): data races and memory errors (TSan / ASan), and the step from
+   hand-out order to resume order per receiver in `per_sender_order_partial` (FIFO pipes + one outstanding wait per fiber). -/
+import JanetModel.Thread.Lemmas
+
+namespace JanetModel.Props.C08
+open JanetModel.Thread
+
+/-- ☆ exactly once: if janet_thread_chan_cb re-dispatches a stale read message and puts the item back when no reader waits,
+    then under every interleaving (including abandoned waits, close, any number of loops) every item accepted by a give is
+    in exactly one of: `items`, a pipe message in flight, delivered to exactly one fiber. -/
+theorem exactly_once (cfg : Cfg) (hq : cfg.requeue = true) (hd : cfg.redispatch = true) (limit : Nat) (acts : List Act) :
+    Conserved (run cfg acts (init limit)) :=
+  run_conserved cfg hq hd acts (init limit) (conserved_init limit)
+
+/-- what holds for EVERY configuration (in particular the unchanged tree, which drops the item): exactly-once in all
+    executions in which no read message is found stale by janet_thread_chan_cb (no reader abandoned a wait that an item
+    was dispatched to).  Missing part = the stale case, false on the unchanged tree: `exactly_once_counterexample`. -/
+theorem exactly_once_partial (cfg : Cfg) (limit : Nat) (acts : List Act)
+    (h : (run cfg acts (init limit)).staleReads = 0) : Conserved (run cfg acts (init limit)) :=
+  run_conserved_partial cfg acts (init limit) h (conserved_init limit)
+
+/-- the unchanged tree (`requeue = false`): reader 0 waits, abandons its wait, thread 1 gives item 7, loop 0 handles the
+    message: the item is nowhere (not queued, not in flight, not delivered) although the give succeeded. -/
+theorem exactly_once_counterexample :
+    let s := run ⟨false, false, true, true⟩ [.take 0 0, .abandon 0, .give 1 1 7, .handle 0] (init 4)
+    s.sent = [7] ∧ s.items = [] ∧ s.flight = [] ∧ s.delivered = [] ∧ ¬ Conserved s := by
+  refine ⟨by decide, by decide, by decide, by decide, ?_⟩
+  intro h
+  have := h 7
+  revert this
+  decide
+
+example : (run ⟨true, true, true, true⟩ [.take 0 0, .abandon 0, .give 1 1 7, .handle 0, .take 0 2] (init 4)).delivered = [(2, 7)] := by
+  decide
+
+/-- ★ (partial) per-sender order: in every execution in which no read message is found stale, items leave the channel
+    (taken directly, or dispatched to a pending reader) exactly in the order in which they were given: the hand-out log
+    followed by the queue content IS the send log.  Hence two items of one sender are handed out in the order sent.
+    Missing for the full statement: (a) stale readers - false, see `per_sender_order_counterexample`, also on the
+    implementation (known finding reorder-stale-reader); (b) hand-out order = resume order per receiver (FIFO pipe of the
+    receiver's loop and one outstanding wait per fiber) - argued in notes/C08.md, tested by the topology oracle. -/
+theorem per_sender_order_partial (cfg : Cfg) (limit : Nat) (acts : List Act)
+    (h : (run cfg acts (init limit)).staleReads = 0) :
+    let s := run cfg acts (init limit)
+    s.handed.map Prod.snd ++ s.items = s.sent :=
+  (run_fifo cfg acts (init limit) h ⟨Or.inl rfl, rfl⟩).2
+
+/-- even with the put-back fix: item 1 is dispatched to a reader that abandoned its wait, item 2 is queued and taken by
+    fiber 5, item 1 comes back and is taken by fiber 5 afterwards: received 2 before 1 although sent 1 before 2. -/
+theorem per_sender_order_counterexample :
+    let s := run ⟨true, true, true, true⟩
+      [.take 0 0, .abandon 0, .give 1 1 1, .give 1 1 2, .take 0 5, .handle 0, .take 0 5] (init 4)
+    s.sent = [1, 2] ∧ s.delivered = [(5, 2), (5, 1)] := by
+  decide
+
+example : (run ⟨true, true, true, true⟩ [.take 0 0, .give 1 1 1, .give 1 1 2, .handle 0, .take 0 5] (init 4)).staleReads = 0 := by
+  decide
+
+/-! ### ev/thread -/
+
+def TInv (s : TSt) : Prop :=
+  (s.posted = true → s.bodyDone = true) ∧ (s.callerResumed = true → s.posted = true) ∧ s.resumedAfterBody = true
+
+theorem tstep_inv (cfg : TCfg) (hc : cfg.completionAfterBody = true) (s : TSt) (a : TAct) (h : TInv s) : TInv (tstep cfg s a) := by
+  obtain ⟨h1, h2, h3⟩ := h
+  cases a <;> simp only [tstep, hc] <;> (repeat' split) <;> simp_all [TInv]
+
+/-- ★ the fiber that called `ev/thread` is resumed only after the thread body (the whole event loop of the new thread) has
+    finished - for every interleaving of body steps, completion write and caller loop, and every body length. -/
+theorem thread_returns_after_body (cfg : TCfg) (hc : cfg.completionAfterBody = true) (n : Nat) (acts : List TAct) :
+    let s := trun cfg acts { bodyLeft := n }
+    (s.callerResumed = true → s.bodyDone = true) ∧ s.resumedAfterBody = true := by
+  have : ∀ (acts : List TAct) (s : TSt), TInv s → TInv (trun cfg acts s) := by
+    intro acts
+    induction acts with
+    | nil => intro s h; exact h
+    | cons a acts ih => intro s h; exact ih _ (tstep_inv cfg hc s a h)
+  have h := this acts { bodyLeft := n } (by simp [TInv])
+  exact ⟨fun hr => h.1 (h.2.1 hr), h.2.2⟩
+
+/-- if the completion record were written before `subr` returns, the caller can be resumed while the body still runs -/
+theorem thread_returns_after_body_counterexample :
+    let s := trun ⟨false⟩ [.start, .post, .callerLoop] { bodyLeft := 3 }
+    s.callerResumed = true ∧ s.bodyDone = false := by
+  decide
+
+example : (trun ⟨true⟩ [.start, .bodyStep, .bodyStep, .post, .callerLoop] { bodyLeft := 1 }).callerResumed = true := by decide
+
+/-! ### reference count of a shared abstract -/
+
+def RInv (s : RSt) : Prop :=
+  (s.freed = false → s.refcount = s.holds.length + s.transit) ∧ (s.freed = true → s.holds = [] ∧ s.transit = 0) ∧
+    s.useAfterFree = false
+
+theorem rstep_inv (cfg : RCfg) (hc : cfg.increfBeforeSend = true) (s : RSt) (a : RAct) (h : RInv s) : RInv (rstep cfg s a) := by
+  obtain ⟨h1, h2, h3⟩ := h
+  cases hf : s.freed with
+  | true =>
+    obtain ⟨hh, ht⟩ := h2 hf
+    cases a <;> simp [rstep, hh, ht, RInv, hf, h3]
+  | false =>
+    have hr := h1 hf
+    cases a with
+    | send t =>
+      simp only [rstep, hc]
+      split
+      · simp [RInv, hf, h3, hr]; omega
+      · exact ⟨h1, h2, h3⟩
+    | recv t =>
+      simp only [rstep]
+      split
+      · exact ⟨h1, h2, h3⟩
+      · split
+        · simp [RInv, hf, h3, hr]; omega
+        · simp [RInv, hf, h3, hr]; omega
+    | drop t => simp [rstep, RInv, hf, h3, hr]
+    | sweep t =>
+      simp only [rstep]
+      split
+      · rename_i hm
+        have hl := List.length_erase_of_mem hm.1
+        have hpos : 0 < s.holds.length := List.length_pos_of_mem hm.1
+        simp only [RInv, hf, Bool.false_or, h3, and_true]
+        constructor
+        · intro hnf
+          rw [hl, hr]; omega
+        · intro hfr
+          have : s.refcount - 1 = 0 := by simpa using hfr
+          have hz : (s.holds.erase t).length = 0 := by rw [hl]; omega
+          exact ⟨List.eq_nil_of_length_eq_zero hz, by omega⟩
+      · exact ⟨h1, h2, h3⟩
+
+theorem rrun_inv (cfg : RCfg) (hc : cfg.increfBeforeSend = true) :
+    ∀ (acts : List RAct) (s : RSt), RInv s → RInv (rrun cfg acts s) := by
+  intro acts
+  induction acts with
+  | nil => intro s h; exact h
+  | cons a acts ih => intro s h; exact ih _ (rstep_inv cfg hc s a h)
+
+/-- ★ no free while any thread can reach the object: with the reference taken before sending, at every point of every
+    interleaving of send / receive / drop / sweep steps of any number of threads, the count equals the number of holders
+    (threads with a table entry + copies in transit); the object is freed only when there is none; nobody uses it after. -/
+theorem refcount_ge_reachers (cfg : RCfg) (hc : cfg.increfBeforeSend = true) (acts : List RAct) :
+    let s := rrun cfg acts {}
+    (s.freed = false → s.refcount = s.holds.length + s.transit) ∧ (s.freed = true → s.holds = [] ∧ s.transit = 0) ∧
+      s.useAfterFree = false :=
+  rrun_inv cfg hc acts {} (by simp [RInv])
+
+/-- ... and it IS freed by the sweep of the last holder once that thread no longer references it. -/
+theorem refcount_freed_after_last_drop (cfg : RCfg) (s : RSt) (t : Nat) (h : RInv s) (hf : s.freed = false)
+    (hh : s.holds = [t]) (ht : s.transit = 0) (hr : s.reach t = false) : (rstep cfg s (.sweep t)).freed = true := by
+  have := h.1 hf
+  simp [rstep, hh, hr, hf] at this ⊢
+  omega
+
+/-- without the incref before sending ("death in transit"): thread 0 sends, drops its reference and collects: the object is
+    freed while a copy of the pointer is still inside a message. -/
+theorem refcount_counterexample :
+    let s := rrun ⟨false⟩ [.send 0, .drop 0, .sweep 0] {}
+    s.freed = true ∧ s.transit = 1 := by
+  decide
+
+example : (rrun ⟨true⟩ [.send 0, .drop 0, .sweep 0, .recv 1, .drop 1, .sweep 1] {}).freed = true := by decide
+example : (rrun ⟨true⟩ [.send 0, .drop 0, .sweep 0, .recv 1] {}).freed = false := by decide
+
+end JanetModel.Props.C08
